@@ -213,7 +213,7 @@ lazy_static! {
 [\ ]
 \(                 # open ( which the previous file name may not contain in case a name does (which is more likely)
 (
-    [^\ ].*[^\ ]   # author name
+    [^\ ](?:.*?[^\ ])?   # author name (shortest match: the code may contain text shaped like blame metadata)
 )
 [\ ]+
 (                  # timestamp
